@@ -219,7 +219,7 @@ def run(c):
     for pv in fr["pv"]:
         c.violation("%s:bit" % pv["key"], pv["what"] + " after flipping bit %d (%s of entry %d, honest segment of %d entries)" % (pv["bit"], pv["op"], pv["a"], pv["n"]),
                     {"kind": "flip", "n": pv["n"], "op": pv["op"], "a": pv["a"], "bit": pv["bit"], "real": pv["real"]})
-    want = sum(1 for h in fl if h["n"] <= 3)
+    want = sum(1 for h in fl if h["n"] <= 3 or thorough)
     honest_failed = any(pv["key"].startswith("RejectsValid:honest-construction") for pv in fr["pv"])
     if not honest_failed and (fr["exhaustive_cases"] != want or fr["flips"] < 5000):
         c.fail_tool("bit-flip campaign incomplete: %s exhaustive cases (want %d), %s flips" % (fr["exhaustive_cases"], want, fr["flips"]))
